@@ -81,6 +81,29 @@ _c("place_notes", params={"self": "Bar", "notes": "None", "duration": "real"},
 CLASSES["NoteContainer"] = {"class": "mingus.containers.note_container.NoteContainer", "fields": {"notes": "[Note]"}}
 
 
+def _place_like(duration, notes_clause):
+    """the placement contract with the duration (and the content clause) of a wrapper substituted"""
+    import copy, re
+    d = copy.deepcopy(_PLACE)
+
+    def sub(e):
+        e = e.replace("same_object(self.bar[len(self.bar) - 1][2], notes)", notes_clause)
+        return re.sub(r"\bduration\b", "(" + duration + ")", e)
+    d["requires"] = sub(d["requires"])
+    for cs in d["cases"]:
+        cs["when"] = sub(cs["when"]) if cs["when"] else None
+        cs["ensures"] = [(n, sub(e)) for n, e in cs["ensures"]]
+    return d
+
+
+# the two wrappers: a rest is a placement of None; '+' places with the beat unit of the meter (a quarter in free time)
+_c("place_rest", params={"self": "Bar", "duration": "real"},
+   **dict(_place_like("duration", "is_None(self.bar[len(self.bar) - 1][2])"), battery="bar_rest"))
+_UNIT = "(self.meter[1] if self.meter[1] != 0 else 4)"
+_c("__add__", params={"self": "Bar", "note_container": "NoteContainer"},
+   **dict(_place_like(_UNIT, "same_object(self.bar[len(self.bar) - 1][2], note_container)"), battery="bar_plus"))
+
+
 # removing the last entry: the total goes back by that entry's length, the entries before it stay
 _c("remove_last_entry",
    params={"self": "Bar"},
@@ -182,3 +205,30 @@ _c("__setitem__",
                          for k in (1, 2) for i in range(0, k)])],
    split_is_domain=True, modifies=["param:self"], properties=["C13", "C11"], battery="bar_setitem",
    notes="domain: bars of 0..3 entries, any index (negative ones count from the end, out of range raises IndexError)")
+
+# construction and the read accessors
+CLASSES["BlankBar"] = {"class": "mingus.containers.bar.Bar", "fields": {}}
+CLASSES["Key"] = {"class": "mingus.core.keys.Key", "fields": {}}
+_c("__init__",
+   params={"self": "BlankBar", "key": "str", "meter": "(int,int)"}, returns="None",
+   requires="len(key) >= 1",
+   ensures=[("key-object-of-that-key", "self.key.key == key"),
+            ("meter-stored", "self.meter == (meter[0], meter[1])"),
+            ("length-is-count-over-unit", "(meter == (0, 0) and self.length == 0) or "
+                                          "(is_pow2(meter[1]) and feq(self.length, meter[0] / meter[1]))"),
+            ("starts-empty-at-beat-zero", "len(self.bar) == 0 and self.current_beat == 0.0"),
+            ("with-an-entry-list-of-its-own", "is_fresh(self.bar)")],
+   raises={"NoteFormatError": "not is_key(key)",
+           "MeterFormatError": "is_key(key) and not (is_pow2(meter[1]) or (meter[0] == 0 and meter[1] == 0))"},
+   split=[{"bind": {"key": k}} for k in __import__("contracts.core_keys", fromlist=["KEYS30"]).KEYS30] +
+         [{"assume": "not is_key(key)"}],
+   modifies=["param:self"], battery="bar_init", properties=["C13", "C15"])
+_c("__getitem__",
+   params={"self": "LiftBar", "index": "int"}, returns="any", modifies=[],
+   ensures=[("the-entry-itself", "same_object(result, self.bar[index])")],
+   raises={"IndexError": "index >= len(self.bar) or index < -len(self.bar)"},
+   split=[{"field_types": {"self.bar": "[" + ",".join(["[real,real,NoteContainer]"] * k) + "]"}, "bind": {"index": i}}
+          for k in range(0, 4) for i in range(-k, k)] +
+         [{"field_types": {"self.bar": "[" + ",".join(["[real,real,NoteContainer]"] * k) + "]"},
+           "assume": "index >= %d or index < %d" % (k, -k)} for k in range(0, 4)],
+   split_is_domain=True, inline=True, battery="bar_getitem")
